@@ -6,7 +6,7 @@ from core import nats, opt, b01, exc_kind, safe_check
 import taxutil as T
 
 PROPS = ('GambitV.Props.C10', 'GambitV.C10')
-TIE = []
+TIE = [('GambitV.Tie.PyFindMatches', 'GambitV.Tie.Py'), ('GambitV.Tie.PyConsensus', 'GambitV.Tie.Py')]
 RULE = ('consensus_taxon: (forest, ordered list of matched taxa): all forests with <= 4/5 nodes x all non-empty subsets x all orders '
         '[exhaustive]; random forests up to 12 nodes with <= 7 matched taxa x up to 50 random orders, incl. three-level conflicts '
         '{species, its subspecies, sibling species}. classify(strict=True): random forests x genome assignments x tie-heavy float32 rows, '
@@ -35,6 +35,9 @@ def check(ctx, case):
 	taxa = T.build_taxa(parent, thr, report)
 	tix = T.idx_of(taxa)
 	ti = lambda t: None if t is None else tix.get(id(t), 999999)   # 999999 = an object that does not belong to this taxonomy
+	if case['kind'] == 'pyrt':
+		import random
+		return pyrt_lines(random.Random(0)), []
 	if case['kind'] == 'consensus':
 		order = case['order']
 		thr_s, = T.scale_all(thr)
@@ -44,7 +47,8 @@ def check(ctx, case):
 		except Exception as e:
 			return [], [f'consensus_taxon raised {exc_kind(e)}: {e}']
 		case['_nt'] = len(set(order)) >= 2
-		return [f'c10.consensus {ftok} {nats(order)} {opt(ti(cons))} {nats(sorted(ti(o) for o in others))}'], []
+		lin = [f'pyrt.lineage {ftok} {order[0]} {nats([ti(a) for a in taxa[order[0]].ancestors(incself=True)])}'] if order else []
+		return [f'c10.consensus {ftok} {nats(order)} {opt(ti(cons))} {nats(sorted(ti(o) for o in others))}'] + lin, []
 	# classify strict
 	gtax = case['gtax']
 	# distances as the float32 row query() passes, or - legal for the documented Sequence[float] argument - float64 / Python floats
@@ -82,12 +86,44 @@ def check(ctx, case):
 	if (prim is not None and prim != c) != not_closest_warned:
 		pf.append('"primary is not closest" warning inconsistent with the matches reported')
 	case['_nt'] = len(warn) >= 2 or failed
-	return [f'c10.classify {ftok} {nats(gtax)} {nats(ds_s)} {b01(res.success)} {opt(ti(res.predicted_taxon))} {opt(prim)} {c} '
+	# the dictionary find_matches builds for this row (insertion order = first-match order), next to the model and to the definition
+	# generated from the current source (tie T, Driver/PyGen.lean)
+	extra = []
+	try:
+		from gambit.classify import find_matches
+		fm = find_matches(zip(genomes, dists))
+		tok = ';'.join(f'{ti(t)}:{",".join(str(int(i)) for i in idxs)}' for t, idxs in fm.items()) or '_'
+		extra.append(f'pyg.fm {ftok} {nats(gtax)} {nats(ds_s)} {tok}')
+	except Exception as e:
+		pf.append(f'find_matches raised {exc_kind(e)}: {e}')
+	return extra + [f'c10.classify {ftok} {nats(gtax)} {nats(ds_s)} {b01(res.success)} {opt(ti(res.predicted_taxon))} {opt(prim)} {c} '
 	        f'{nats(sorted(warn))} {b01(failed)}'], pf
+
+
+def pyrt_lines(rng, n=40):
+	"""the list built-ins of the translator's run-time library (Model/PyRt.lean) against CPython, and Forest.lineage against Taxon.ancestors"""
+	lines = []
+	for _ in range(n):
+		xs = [rng.randrange(6) for _ in range(rng.randrange(0, 7))]
+		b = lambda: rng.choice([None, rng.randrange(-9, 10)])
+		lo, hi = b(), b()
+		lines.append(f'pyrt.slice {nats(xs)} {"~" if lo is None else lo} {"~" if hi is None else hi} {nats(xs[lo:hi])}')
+		i = rng.randrange(-9, 10)
+		try:
+			r = str(xs[i])
+		except IndexError:
+			r = '~'
+		lines.append(f'pyrt.getitem {nats(xs)} {i} {r}')
+		a = rng.randrange(6)
+		lines.append(f'pyrt.index {nats(xs)} {a} {xs.index(a) if a in xs else "~"}')
+		p, q = rng.randrange(-20, 21), rng.choice([-7, -3, -1, 1, 2, 5])
+		lines.append(f'pyrt.divmod {p} {q} {p // q},{p % q}')
+	return lines
 
 
 def run(ctx):
 	rng = ctx.rng
+	ctx.submit({'kind': 'pyrt'}, pyrt_lines(rng), nontrivial=False, tags=['pyrt-builtins'])
 
 	def sub(case, tag):
 		lines, pf = safe_check(check, ctx, case)
